@@ -17,7 +17,7 @@ BOUNDS = dict(
                           "1 symbolic b with one irreducible k at an enumerated position (all meshes), 2 b's x 2 k's (meshes <=4 points), all k's (2 points)",
                weights="complete sets of linearly independent shells (harness-selected, shortest first) of 6 concrete lattices (sc, fcc, bcc, hexagonal, orthorhombic, triclinic), also with the last shell dropped, with every shell stretched by a symbolic factor, or one fully symbolic +-b shell; "
                        "LAPACK svd output = unconstrained fresh atoms u, s, vh (one-shell sets: sc, fcc, bcc) or u=1, s=1, vh fresh, which still reaches every weight vector (all sets); bk_complete_tol symbolic in [1e-8,1e-3]",
-               shells="6 lattices x meshes (1,1,1),(2,2,2),(2,2,1)/(3,2,1): kmesh_tol symbolic in [1e-9,1e-5]",
+               shells="6 lattices x meshes (1,1,1),(2,2,2),(2,2,1)/(3,2,1) and the sheared cell with the Gamma-only mesh: kmesh_tol symbolic in [1e-9,1e-5]",
                object="__init__: symbolic 3x3 reciprocal lattice and weights, meshes 2x3x4, 3x1x2; from_kpoints: mono/tric/hex 2x3x4, fcc 3x2x2, bcc 2x2x3, mono 3x3x2, and 2D / 1D / Gamma-only meshes (5x3x1, 1x6x1, 4x1x1, 3x2x1, 1x3x2, 1x4x1, 1x1x1) on three strongly sheared, "
                       "non-reduced cells and the triclinic one; seeded k-point order, symbolic kmesh_tol",
                nnkp="from_nnkp: hex 1x1x1 / ortho 2x2x1 / fcc 2x2x2 with every transposition of the shell-ordered neighbour list, sc 2x3x4 with every rotation, hex 2x2x1 and mono 2x3x4 seeded shuffles; other k-points listed in seeded orders"),
@@ -719,8 +719,8 @@ def cases(tier, seed):
             what += ", each shell scaled by a symbolic factor in [0.5,2]"
         out.append(Case(f"weights shells={src}{mesh} ({what}) svd={mode} msg_if_fail={msg}", case_weights,
                         dict(source=src.rstrip("*"), nshell=ns, mode=mode, msg_if_fail=msg, mesh=mesh, scaled=src.endswith("*")), timeout=900))
-    for name in LATTICES:
-        for mesh in [(1, 1, 1), (2, 2, 2), (2, 2, 1) if name in ("sc", "hex", "ortho") else (3, 2, 1)] + ([] if q else [(3, 3, 3), (4, 4, 2)]):
+    for name in ("sc", "fcc", "bcc", "hex", "ortho", "tric", "shear"):
+        for mesh in ([(1, 1, 1)] if name == "shear" else [(1, 1, 1), (2, 2, 2), (2, 2, 1) if name in ("sc", "hex", "ortho") else (3, 2, 1)]) + ([] if q else [(3, 3, 3), (4, 4, 2)]):
             out.append(Case(f"shells lattice={name} mesh={mesh} symbolic kmesh_tol", case_shells, dict(name=name, mesh=mesh), timeout=1500))
     for mesh in [(2, 3, 4), (3, 1, 2)] + ([] if q else [(1, 1, 1), (4, 2, 3)]):
         out.append(Case(f"object: BKVectors.__init__ on a symbolic reciprocal lattice, mesh={mesh}", case_object_symbolic_lattice, dict(mesh=mesh, seed=seed), timeout=900))
